@@ -26,6 +26,9 @@ Check(e) ==
   ELSE IF e.kind = "query" THEN (IF e.gohash = e.spechash THEN {} ELSE {"BridgeQueryIdMatchesTokenBridge"})
   ELSE IF e.kind = "wvalue" THEN (IF e.bytes = WithdrawValuePre(e.rcpt, e.sender, e.amount) THEN {} ELSE {"WithdrawalValueDecodesInTokenBridge"})
   ELSE IF e.kind = "sig" THEN (IF e.recovers THEN {} ELSE {"SignatureDigestConventionMatchesContract"})
+  \* the EVM address the chain registers for a validator (from its two initial signatures) is the one the contract's
+  \* ecrecover yields for that key: keccak-256 of the two 32-byte, zero-padded coordinates, last 20 bytes
+  ELSE IF e.kind = "evmaddr" THEN (IF e.chain = e.contract THEN {} ELSE {"RegisteredAddressIsWhatEcrecoverYields"})
   ELSE {"UnknownKind"}
 Step == /\ l <= Len(Trace)
         /\ viol' = AddViol(viol, l, Check(Trace[l]))
